@@ -58,8 +58,9 @@ Definition fkind_eqb (a b : fkind) : bool :=
    exactly one such m (FFin 0 is +0).  Comparison is Z comparison, exact sums are Z.add. *)
 Inductive fl := FNaN | FPInf | FNInf | FNegZero | FFin (m : Z).
 
-Definition grid : Z := 2 ^ 1074.
-Definition fl_max_grid : Z := (2 ^ 53 - 1) * 2 ^ (971 + 1074). (* MaxFloat64 in grid units *)
+Definition grid : Z := Z.shiftl 1 1074.
+Definition p53 : Z := 9007199254740992.                       (* 2^53 *)
+Definition fl_max_grid : Z := Z.shiftl (p53 - 1) (971 + 1074). (* MaxFloat64 in grid units *)
 
 (* structural identity of two float observations (NaN is NaN, +0 is not -0) *)
 Definition fl_same (a b : fl) : bool :=
@@ -106,13 +107,22 @@ Definition rne_div (num den : Z) : Z :=   (* nearest integer to num/den, ties to
   | Gt => q + 1
   | Eq => if Z.even q then q else q + 1
   end.
+(* shifts instead of divisions by powers of two: vm_compute is quadratic in Z.div *)
 Definition round_pos (num den : Z) : fl :=  (* num >= 0, den > 0 *)
-  let q := num / den in
-  if Z.ltb q (2 ^ 53) then FFin (rne_div num den)
+  let q0 := if Z.eqb den 1 then num else num / den in
+  if Z.ltb q0 p53 then FFin (if Z.eqb den 1 then num else rne_div num den)
   else
-    let sh := Z.log2 q - 52 in
-    let r := rne_div num (den * 2 ^ sh) * 2 ^ sh in
-    if Z.ltb fl_max_grid r then FPInf else FFin r.
+    let sh := Z.log2 q0 - 52 in
+    let q := Z.shiftr q0 sh in
+    let big := Z.shiftl den sh in
+    let r := num - q * big in
+    let q' := match Z.compare (2 * r) big with
+              | Lt => q
+              | Gt => q + 1
+              | Eq => if Z.even q then q else q + 1
+              end in
+    let res := Z.shiftl q' sh in
+    if Z.ltb fl_max_grid res then FPInf else FFin res.
 Definition fl_neg (a : fl) : fl :=
   match a with
   | FNaN => FNaN | FPInf => FNInf | FNInf => FPInf
@@ -129,7 +139,8 @@ Definition round_q (num den : Z) : fl :=  (* den > 0; exact zero gives +0 (calle
   else round_pos num den.
 
 (* float64(n) for an integer n *)
-Definition fl_of_Z (n : Z) : fl := round_q (n * grid) 1.
+Definition fl_of_Z (n : Z) : fl :=
+  if Z.ltb (Z.abs n) p53 then FFin (Z.shiftl n 1074) else round_q (Z.shiftl n 1074) 1.
 
 (* a + b in binary64 *)
 Definition fl_add (a b : fl) : fl :=
@@ -153,7 +164,7 @@ Definition fl_div_count (a : fl) (n : Z) : fl :=
 (* int(f) for a finite f: truncation toward zero *)
 Definition fl_trunc (a : fl) : option Z :=
   match a with
-  | FFin m => Some (Z.quot m grid)
+  | FFin m => Some (if Z.ltb m 0 then - Z.shiftr (- m) 1074 else Z.shiftr m 1074)
   | FNegZero => Some 0
   | _ => None
   end.
